@@ -372,6 +372,21 @@ def run_unit(unit_name, template_rel, variant):
                                      kind="ownership condition not satisfied",
                                      clause="struct %s holds no shared mutable cell" % sname,
                                      text="the operator value `%s` (%s) has a field whose type mentions %s: the derived Clone shares that cell between the subscriptions of clones of one pipeline (per-subscription state must be created in actual_subscribe)" % (sname, spath, ", ".join(cells_))))
+    # atomic sections (structural): a function declared atomic acquires its cell exactly once
+    if (stats or {}).get("atomic_sections"):
+        res["atomic_sections"] = []
+        seen_ = set()
+        for (fn_, atags_, cell_, n_acq) in stats["atomic_sections"]:
+            if (fn_, cell_) in seen_:
+                continue
+            seen_.add((fn_, cell_))
+            res["atomic_sections"].append(dict(function=fn_, cell=cell_, acquisitions=n_acq))
+            if n_acq > 1:
+                owner_ = [q for q in res["functions"] if q.split("::")[-1] == fn_]
+                own_fail.append(dict(function=owner_[0] if owner_ else fn_, tags=[x for x in atags_ if x.startswith("C")],
+                                     kind="lock scope (check-then-act: the cell is acquired %d times)" % n_acq,
+                                     clause="@@atomic %s :: %s" % (fn_, cell_),
+                                     text="`%s` must decide and act under ONE acquisition of the cell `%s` (one RefCell borrow / one Mutex critical section); the body acquires it %d times, so another handle can unsubscribe / append between the check and the action" % (fn_, cell_, n_acq)))
     if other or vr.get("encountered-vir-error"):
         if own_fail:
             # the struct-level obligation is decided although the rest of the unit is not
